@@ -388,7 +388,7 @@ Proof.
   assert (Hun : Sim (el_unnamed c1 node n1 a) (el_unnamed c2 node n2 b)).
   { unfold el_unnamed. pose proof (Sim_el_snippet node n1 n2 a b Hn H) as Hs.
     destruct (el_snippet c1 node n1 a); destruct (el_snippet c2 node n2 b); cbn [SimO] in Hs; try contradiction; [exact Hs|].
-    destruct (an_value node) as [[|v0 v]|]; try exact H. apply Hn, Sim_push_tokens, H. }
+    apply Hn. destruct (an_value node) as [[|v0 v]|]; try exact H. apply Sim_push_tokens, H. }
   destruct (an_name node) as [[|x nm]|]; try exact Hun.
   unfold el_named.
   destruct (an_self node && match an_children node with [] => true | _ => false end && negb (truthy_l (an_value node))).
